@@ -182,6 +182,24 @@ def check_use_sites(r, case, par, text, what):
         + (f" (p_{par[t]} ?x)" if par.get(t) else "") + ") :effect (and (mk ?x)))" for t in names)
     D = guard(parse_domain, domain_text(text, f"(:constants {consts})\n" + base + touch))
     Dq = guard(parse_domain, domain_text(text, base + actions))
+    # an untyped constant written after the typed groups is of the root type: accepted exactly where 'object' is required
+    consts_free = " ".join(f"k_{t} - {t}" for t in ["object"] + names)   # the last typed group is not the root type
+    Dfree = guard(parse_domain, domain_text(text, f"(:constants {consts_free} k_free)\n" + base))
+    if isinstance(Dfree, Raised):
+        r.fail("use-site-domain-rejected", f"(:types {text}): (:constants {consts_free} k_free) raised {Dfree}", "parsed", str(Dfree),
+               tags=case["tags"] + [what])
+        return
+    for rho in allt:
+        for kind, init in (("constant-fact", f"(p_{rho} k_free)"), ("constant-fluent", f"(= (g_{rho} k_free) 2)")):
+            got = guard(parse_problem, f"(define (problem p) (:domain t) (:objects {objs}) (:init {init}) (:goal (and)))", Dfree)
+            r.count("transitions")
+            accepted = not isinstance(got, Raised)
+            if accepted != (rho == "object"):
+                r.fail("use-site-" + kind, f"(:types {text}) (:constants {consts_free} k_free): {init} with the trailing untyped constant "
+                       f"where {rho} is required was {'accepted' if accepted else 'rejected: ' + str(got)}, expected "
+                       f"{'accepted' if rho == 'object' else 'rejected'}", rho == "object", accepted,
+                       tags=case["tags"] + [what, kind, "trailing-untyped-constant"])
+                return
     if isinstance(D, Raised) or isinstance(Dq, Raised):
         r.fail("use-site-domain-rejected", f"(:types {text}): use-site domain raised {D} / {Dq}", "parsed", str(D),
                tags=case["tags"] + [what])
